@@ -238,3 +238,7 @@ type typesSignature = types.Signature
 type typesVar = types.Var
 type typesTuple = types.Tuple
 type typesFunc = types.Func
+
+type typesPointer = types.Pointer
+
+func typesUnalias(t types.Type) types.Type { return types.Unalias(t) }
